@@ -25,6 +25,8 @@ ENGINES = [
     {"name": "Summaries*.tla", "path": "/verif/spec/SummariesMap.tla", "serves_properties": ["C11", "C12", "C16"], "kind_free_text": "SummariesMap (MAP / topology report scan), SummariesTable (result table rows), SummariesCons / SummariesCons4 (consensus)"},
     {"name": "Loader.tla", "path": "/verif/spec/Loader.tla", "serves_properties": ["C17"], "kind_free_text": "input tables as cell->rows functions: documented vs implementation-shaped filtering"},
     {"name": "Emission.tla", "path": "/verif/spec/Emission.tla", "serves_properties": ["C05"], "kind_free_text": "PyClone genotype enumeration and exact rational VAFs"},
+    {"name": "Chains.tla", "path": "/verif/spec/Chains.tla", "serves_properties": ["C18"], "kind_free_text": "multi-chain scheduler: spawned streams, interleavings, completion orders"},
+    {"name": "TraceFile.tla", "path": "/verif/spec/TraceFile.tla", "serves_properties": ["C20"], "kind_free_text": "streamed single write with crash after any prefix; reader all-or-error"},
     {"name": "Forests.tla", "path": "/verif/spec/Forests.tla", "serves_properties": ["C01", "C03", "C04", "C06", "C07", "C08", "C09", "C11", "C12", "C16"], "kind_free_text": "canonical forest universe"},
 ]
 
@@ -181,6 +183,32 @@ CHECKS = {
                 "order, per-sample rows (= that row loaded alone), bit-identical results across orders, cluster sums and numbering, defaults, "
                 "and the major<minor error.",
         "note": "Trusted: TLC, file writer. The grid of a row loaded alone is the per-row reference (the emission model itself is C05).",
+    },
+    "C18": {
+        "engine": "Chains.tla",
+        "category": "exploration",
+        "technique": "TLC exhaustive interleavings/completion orders of the multi-chain scheduler model; real CLI runs under hash-seed / affinity / start-delay perturbations compared bit-for-bit",
+        "design_ref": "DESIGN.md 5 C18",
+        "text": "Chains.tla explores every interleaving of K<=3 chains' draws on W worker slots and every completion order: each chain's result is "
+                "exactly the draws of its own spawned stream, results are keyed by chain number, no draw is shared; one shared stream and "
+                "per-worker-slot streams are refuted. On the real code `phyclone run --seed S --num-chains 2` (outlier modelling and subtree "
+                "moves on) is executed under PYTHONHASHSEED 0/4242/1/2, all cores vs one core (taskset), and per-chain start delays that produce "
+                "both completion orders (asserted from the run's output), plus two single-chain runs; every trace entry (tree, alpha, log_p_one) "
+                "of every chain must be bit-identical across runs. Thorough: 3 proposals x 3 chains.",
+        "note": "Level exploration: OS schedules are sampled (exhaustive only in the model). Delays are injected by a sitecustomize on PYTHONPATH guarded by PHYCLONE_VERIF=1; nothing in /repo is modified.",
+    },
+    "C20": {
+        "engine": "TraceFile.tla",
+        "category": "fault_enumeration",
+        "technique": "TLC model of the streamed write with a crash after any byte; exhaustive truncation of real trace files through the three summary commands",
+        "design_ref": "DESIGN.md 5 C20",
+        "text": "TraceFile.tla models the single streamed write as byte appends with a crash after any prefix and the one-object reader: "
+                "NoPartialResult holds for one pickled object in one gzip member and is refuted for several objects per stream or a reader that "
+                "swallows end-of-stream errors. On the real code, trace files of 1-3 chains x 1-6 entries (clustered and not) are written by "
+                "create_main_run_output and EVERY prefix length is fed to write_map_results, write_consensus_results and "
+                "write_topology_report: each must raise or write outputs byte-identical to those from the complete file; a 1100-entry trace is "
+                "swept with a dense prefix sample plus every byte of its last 300.",
+        "note": "Crash model: the file is a prefix of the written bytes. Any exception counts as failing with an error.",
     },
     "C19": {
         "engine": "Chain.tla",
